@@ -1,1 +1,41 @@
+(* C06/Props.v — property theorems only (each closed by `exact`, Print Assumptions beneath).
+   Property C06: reading a slice straight from file bytes equals NumPy indexing.
+   Yardstick: Base/PySlice.v (py_indices n s = list(range(n))[s]), validated against CPython
+   and NumPy on every run of ./check C06. *)
+From Coq Require Import ZArith List Bool Lia.
 From NV Require Import Base.PySlice C06.Model C06.Lemmas.
+Import ListNotations.
+Open Scope Z_scope.
+
+(* helper predictions agree with Python/NumPy for EVERY slice and axis length *)
+Theorem C06_fill_slicer_spec : forall s n f, 0 <= n -> fill_slicer s n = Ok f ->
+  fsl_indices f = py_indices n s /\ f_step f = step_of s /\ step_of s <> 0.
+Proof. exact fill_slicer_indices. Qed.
+Print Assumptions C06_fill_slicer_spec.
+
+Theorem C06_fill_slicer_total : forall s n, step_of s <> 0 -> exists f, fill_slicer s n = Ok f.
+Proof. exact fill_slicer_ok. Qed.
+Print Assumptions C06_fill_slicer_total.
+
+Theorem C06_slice2len_spec : forall s n, 0 <= n -> step_of s <> 0 ->
+  slice2len s n = Ok (zlen (py_indices n s)).
+Proof. exact slice2len_spec. Qed.
+Print Assumptions C06_slice2len_spec.
+
+(* _positive_slice: same indices, reversed, positive step *)
+Theorem C06_positive_slice_spec : forall f, f_step f < 0 ->
+  fsl_indices (positive_slice f) = rev (fsl_indices f)
+  /\ f_step (positive_slice f) = - f_step f
+  /\ exists b, f_stop (positive_slice f) = Some b.
+Proof. exact positive_slice_spec. Qed.
+Print Assumptions C06_positive_slice_spec.
+
+(* optimize_slicer, for ANY heuristic, any axis length, any int in range or slice: the read
+   slicer has positive step and post-slicing what it reads selects exactly the elements of the
+   original slicer in the original order (an int read keeps the int and drops the axis) *)
+Theorem C06_optimize_slicer_sound : forall c n all_full is_slowest stride (h : heuristic) rd ps,
+  0 <= n -> valid_cidx n c ->
+  optimize_slicer c n all_full is_slowest stride h = Ok (rd, ps) ->
+  read_post_ok n (axis_sel n c) rd ps.
+Proof. exact optimize_slicer_sound. Qed.
+Print Assumptions C06_optimize_slicer_sound.
